@@ -170,7 +170,7 @@ func (p *Program) remoting() *remRoles {
 				for _, a := range c.Args {
 					if mc, ok := strip(a).(*ssa.MakeClosure); ok {
 						if f, ok := mc.Fn.(*ssa.Function); ok && f.Signature.Results().Len() == 2 {
-							r.SendLoop, r.Try = f, c.StaticCallee()
+							r.SendLoop, r.Try = p.unwrapThin(f), c.StaticCallee()
 						}
 					}
 				}
